@@ -58,6 +58,7 @@ struct Rec {
   std::vector<std::string> discovered;
   std::map<std::string, std::string> trees;     // directory(-structure) inputs: digest of what the node covers
   int sawBuild = 0;                             // last build that ran this command or found it up to date
+  std::map<std::string, int> stamps;            // command-timestamp inputs: the build in which the producer had last run
 };
 
 struct Run;
@@ -245,6 +246,9 @@ struct Run {
     return out;
   }
   bool nodeIsStructure(const std::string& node) const { return nodeAttr(node, "is-directory-structure") == "true"; }
+  // a virtual node that carries "when its producer last ran": consumers re-run whenever the producer has run
+  bool isTimestampNode(const std::string& node) const { return nodeAttr(node, "is-command-timestamp") == "true"; }
+  std::map<std::string, int> lastOkRun;   // command -> build of its last successful execution
 
   // What a directory-tree (or directory-structure) node observes beneath `path`: names, types and, for tree
   // nodes, the stat information of every entry; names matching an exclusion pattern are invisible at every level.
@@ -665,7 +669,7 @@ void Run::opBuild(const Json& op) {
         if (!isVirtualNode(i) && !isDirNode(i) && !desc.producer(i) && !stateOf(i).exists) predictFail[c->name] = true;
       continue;
     }
-    bool upstreamFailed = false, upstreamRan = false;
+    bool upstreamFailed = false, upstreamRan = false, stampChanged = false;
     for (auto& i : c->inputs) {
       const Cmd* p = desc.producer(i);
       if (!p) continue;
@@ -675,7 +679,12 @@ void Run::opBuild(const Json& op) {
       // command (and changed back since, which only content-based comparison can show) still re-runs it.  Either is fine.
       if (recs.count(c->name) && lastTouch.count(i) && lastTouch[i] > recs[c->name].sawBuild) soft.insert(c->name);
       // ... and a producer that may legitimately re-run in this build rewrites the input, so its consumers may re-run as well
-      if (soft.count(p->name) && !isVirtualNode(i)) soft.insert(c->name);
+      if (soft.count(p->name) && (!isVirtualNode(i) || isTimestampNode(i))) soft.insert(c->name);
+      // a command timestamp changes whenever its producer runs - now, or in an earlier build that did not reach this command
+      if (isTimestampNode(i) && p->tool == "shell") {
+        if (predictRun[p->name]) upstreamRan = true;
+        else if (recs.count(c->name) && recs[c->name].ok && (!recs[c->name].stamps.count(i) || recs[c->name].stamps[i] != lastOkRun[p->name])) stampChanged = true;
+      }
       // a virtual node carries no value: its producer running does not by itself re-run consumers
       if (predictRun[p->name] && !isVirtualNode(i)) {
         // a producer that runs rewrites its outputs: a new timestamp always, new content only sometimes
@@ -716,7 +725,7 @@ void Run::opBuild(const Json& op) {
       if (!run) noClaim.insert(c->name);
     } else {
       Rec& r = rit->second;
-      if (r.defHash != defHashWithNodes(*c) || c->always || upstreamRan) run = true;
+      if (r.defHash != defHashWithNodes(*c) || c->always || upstreamRan || stampChanged) run = true;
       for (auto& o : c->outputs)
         if (!isVirtualNode(o) && !isDirNode(o) && stateOf(o) != r.outs[o]) run = true;
       for (auto& i : c->inputs) {
@@ -1188,7 +1197,9 @@ void Run::opBuild(const Json& op) {
           r.trees[i + "#filters"] = nodeAttr(i, "content-exclusion-patterns");
         }
         else if (!isVirtualNode(i) && !isMkdirNode(i)) r.ins[i] = stateOf(i);
+        else if (isTimestampNode(i) && desc.producer(i)) r.stamps[i] = lastOkRun[desc.producer(i)->name];
       }
+      lastOkRun[c->name] = buildNo;
       for (auto& o : c->outputs)
         if (!isVirtualNode(o) && !isDirNode(o)) r.outs[o] = stateOf(o);
       if (!c->deps.empty()) {
@@ -1584,6 +1595,21 @@ struct Gen {
     }
     if (products.size() > 2) desc.targets["second"] = {products[rng.below(products.size())]};
     if (property == "C12") buildTree();
+    if ((property == "C08" || property == "C09") && rng.chance(200)) {
+      // a command timestamp: a virtual output of P that carries "when P last ran", consumed by a later command Q, which must
+      // re-run whenever P has run (and only then, other things being equal)
+      std::vector<size_t> shells;
+      for (size_t i = 0; i < desc.cmds.size(); i++)
+        if (desc.cmds[i].tool == "shell" && !desc.cmds[i].allowModified) shells.push_back(i);
+      if (shells.size() >= 2) {
+        size_t a = rng.below(shells.size() - 1);
+        size_t b = a + 1 + rng.below(shells.size() - 1 - a);
+        desc.cmds[shells[a]].outputs.push_back("<ts0>");
+        desc.cmds[shells[b]].inputs.push_back("<ts0>");
+        std::sort(desc.cmds[shells[b]].inputs.begin(), desc.cmds[shells[b]].inputs.end());
+        desc.nodeAttrs["<ts0>"].push_back({"is-command-timestamp", "true"});
+      }
+    }
     if (rng.chance(300)) desc.fsmode = rng.chance(500) ? "device-agnostic" : "checksum-only";
     if (desc.fsmode.empty() && (property == "C08" || property == "C09" || property == "C10") && rng.chance(250)) {
       // a symlink command (built-in tool, no process) naming a product or a source, and a command that reads through it
